@@ -1,6 +1,7 @@
 import Driver.Proto
 import TongoModel.CellFmt
 import TongoModel.WalletSend
+import TongoModel.WalletSeed
 /-! Line handlers for property C15 (wallet address and send parameters). -/
 namespace Driver
 open Tongo Tongo.Wallet Tongo.CellFmt
@@ -94,6 +95,50 @@ def opsC15 : List (String × Handler) := [
           | _ => "bad-op"
         | _, _ => "bad-op"
       | _, _, _, _, _, _, _, _, _ => "bad-op"
+    | _ => "bad-op"),
+  -- w.sendc … <cancelAt|_>: w.send under a context cancelled before call k; <ver> <seed> <pk> <wc|_> <sub|_> <net|_> <code> <state> <acctErr> <sendErr> <nMsgs> <waitMs> <polls>
+  ("w.sendc", fun
+    | [ver, _seed, pk, wc, sub, net, code, st, acctErr, sendErr, nMsgs, wait, polls, cancel] =>
+      match ver.toNat?, hexArg pk, optIntArg wc, optNatArg sub, optIntArg net, cellArg code, parseAcct st,
+            nMsgs.toNat?, wait.toNat? with
+      | some ver, some pk, some wc, some sub, some net, some code, some st, some nMsgs, some wait =>
+        match Version.ofGoIndex? ver, parsePolls polls (wait / 10) with
+        | some v, some polls =>
+          match address sha256 code v pk (walletOpts wc sub net) with
+          | .ok self =>
+            let sc : Script := { acct := if acctErr == "1" then .err "scripted" else .ok st,
+                                 sendErr := sendErr == "1", polls := polls }
+            (match optNatArg cancel with
+              | some c => sendOut v (sendV2Ctx confirmLoop v self nMsgs sc wait c)
+              | none => "bad-op")
+          | _ => "bad-op"
+        | _, _ => "bad-op"
+      | _, _, _, _, _, _, _, _, _ => "bad-op"
+    | _ => "bad-op"),
+  ("prim.sha512", fun
+    | [m] => match hexArg m with
+      | some m => hexOut (Tongo.Sha512.hash m)
+      | none => "bad-op"
+    | _ => "bad-op"),
+  ("prim.hmac512", fun
+    | [k, m] => match hexArg k, hexArg m with
+      | some k, some m => hexOut (Tongo.Sha512.hmac k m)
+      | _, _ => "bad-op"
+    | _ => "bad-op"),
+  -- prim.pbkdf2_512 <password> <salt> <iters> <keyLen>
+  ("prim.pbkdf2_512", fun
+    | [pw, salt, it, kl] => match hexArg pw, hexArg salt, it.toNat?, kl.toNat? with
+      | some pw, some salt, some it, some kl => hexOut (Tongo.Sha512.pbkdf2 pw salt it kl)
+      | _, _, _, _ => "bad-op"
+    | _ => "bad-op"),
+  -- seed.key <seed text hex>: SeedToPrivateKey -> "ok <32-byte Ed25519 seed>" | "err"
+  ("seed.key", fun
+    | [s] => match hexArg s with
+      | some s => match Tongo.Wallet.Seed.seedToPrivateKey Tongo.Wallet.Seed.sha512Kdf s with
+        | .ok k => "ok " ++ hexOut k
+        | .err _ => "err"
+        | .panic _ => "panic"
+      | none => "bad-op"
     | _ => "bad-op"),
   -- w.ctx <wc> <net>      genContextID(uint32(wc)) and the v5r1 wallet id
   ("w.ctx", fun
